@@ -2,6 +2,7 @@ package sx
 
 import (
 	"crypto/sha1"
+	"crypto/sha256"
 	"fmt"
 	"go/types"
 
@@ -117,6 +118,16 @@ func (m *Machine) ufHash(family string, resW int, bs []T) T {
 		case "sha1":
 			sum := sha1.Sum(raw)
 			for i := 0; i < 20; i++ {
+				b := m.F.Const(8, uint64(sum[i]))
+				if concRes == nil {
+					concRes = b
+				} else {
+					concRes = m.F.Concat(concRes, b)
+				}
+			}
+		case "sha256":
+			sum := sha256.Sum256(raw)
+			for i := 0; i < 32; i++ {
 				b := m.F.Const(8, uint64(sum[i]))
 				if concRes == nil {
 					concRes = b
@@ -267,5 +278,55 @@ func init() {
 	})
 	register("crypto/sha1.Sum", func(m *Machine, fr *frame, fn *ssa.Function, args []Value) Value {
 		return Array(sha1Bytes(m, m.seqBytes(args[0])))
+	})
+
+	// crypto/sha256 (New, Sum256): same treatment; the digest object is the one
+	// sha256.New really returns (crypto/internal/fips140/sha256.Digest), its
+	// state kept in the executor's side table.
+	sha256Bytes := func(m *Machine, bs []T) []Value {
+		h := m.ufHash("sha256", 256, bs)
+		out := make([]Value, 32)
+		for i := 0; i < 32; i++ {
+			hi := 255 - 8*i
+			out[i] = m.F.Extract(h, hi, hi-7)
+		}
+		return out
+	}
+	const fips256 = "crypto/internal/fips140/sha256"
+	register("crypto/sha256.New", func(m *Machine, fr *frame, fn *ssa.Function, args []Value) Value {
+		pkg := m.W.SSAPkgs[fips256]
+		if pkg == nil || pkg.Type("Digest") == nil {
+			m.unsupported(fips256 + ".Digest not loaded")
+		}
+		dt := pkg.Type("Digest").Type()
+		p := new(Value)
+		*p = m.zero(dt)
+		m.hashAccSet(p, nil)
+		return Iface{T: types.NewPointer(dt), V: Ptr(p)}
+	})
+	register("(*"+fips256+".Digest).Reset", func(m *Machine, fr *frame, fn *ssa.Function, args []Value) Value {
+		m.hashAccSet(args[0].(Ptr), nil)
+		return nil
+	})
+	register("(*"+fips256+".Digest).Write", func(m *Machine, fr *frame, fn *ssa.Function, args []Value) Value {
+		bs := m.seqBytes(args[1])
+		m.hashAppend(args[0].(Ptr), bs)
+		return tupleIntNilErr(m, len(bs))
+	})
+	register("(*"+fips256+".Digest).Sum", func(m *Machine, fr *frame, fn *ssa.Function, args []Value) Value {
+		in := args[1].(Slice)
+		out := make([]Value, 0, len(in.V)+32)
+		out = append(out, in.V...)
+		out = append(out, sha256Bytes(m, m.hashAccOf(args[0].(Ptr)))...)
+		return Slice{V: out}
+	})
+	register("(*"+fips256+".Digest).Size", func(m *Machine, fr *frame, fn *ssa.Function, args []Value) Value {
+		return m.F.Const(64, 32)
+	})
+	register("(*"+fips256+".Digest).BlockSize", func(m *Machine, fr *frame, fn *ssa.Function, args []Value) Value {
+		return m.F.Const(64, 64)
+	})
+	register("crypto/sha256.Sum256", func(m *Machine, fr *frame, fn *ssa.Function, args []Value) Value {
+		return Array(sha256Bytes(m, m.seqBytes(args[0])))
 	})
 }
